@@ -121,8 +121,8 @@ fn gen_gated(c: &mut dyn Choices) -> Case {
 fn gen_case_with(c: &mut dyn Choices, late: bool) -> Case {
   let producer = match c.pick(4) {
     0 | 1 => Src::Interval(1 + c.pick(if late { 2 } else { 3 }) as u64),
-    2 => Src::CountingIter(if late { 160 } else { 40 }),
-    _ => Src::CountingStream(if late { 160 } else { 40 }),
+    2 => Src::CountingIter(if late { 400 } else { 40 }),
+    _ => Src::CountingStream(if late { 400 } else { 40 }),
   };
   let n_mid = c.pick(4);
   let mut chain = Node::Src(producer.clone());
@@ -137,7 +137,7 @@ fn gen_case_with(c: &mut dyn Choices, late: bool) -> Case {
       if c.pick(5) == 0 {
         (Node::Bin(Bin::TakeUntil, c.flag(), Box::new(chain), Box::new(hot)), None)
       } else if late {
-        let n = 33 + c.pick(88);
+        let n = crate::ast::pick_size(c, 33, 88, &[130, 257, 300]);
         let cutter = match c.pick(3) {
           0 => Un::Take(n),
           1 => Un::ElementAt(n),
@@ -155,7 +155,7 @@ fn gen_case_with(c: &mut dyn Choices, late: bool) -> Case {
       let node = if op == Bin::TakeUntil && c.flag() {
         bin
       } else if late {
-        Node::Un(Un::Take(33 + c.pick(88)), false, Box::new(bin))
+        Node::Un(Un::Take(crate::ast::pick_size(c, 33, 88, &[130, 257, 300])), false, Box::new(bin))
       } else {
         Node::Un(gen_cutter(c), false, Box::new(bin))
       };
